@@ -24,7 +24,7 @@ def main(ctx):
     wd = core.workdir()
     rng = random.Random(ctx.seed)
     ev.rule = ("cases: (scenario, schedule): every 1- and 2-frame stream over the pipeline frame set (26 frames), sampled "
-               "3- and 4-frame streams, and connected sessions (Forward Open, SendUnitData, Forward Close, session-ending frames); schedules: whole stream in one chunk, one chunk per frame, 2 random chunkings.  "
+               "3- and 4-frame streams, 1- and 2-frame streams on a server with a request size limit at / one below a frame's payload length, and connected sessions (Forward Open, SendUnitData, Forward Close, session-ending frames); schedules: whole stream in one chunk, one chunk per frame, 2 random chunkings.  "
                "Non-trivial: >= 2 frames, or a failing / unroutable / silent request.")
     ev.assumptions = ["Register's random session handle only required to be non-zero",
                       "List Identity / Services / Interfaces replies: header (command, context, status 0, length) checked; payload not modelled yet"]
@@ -74,11 +74,18 @@ def main(ctx):
             at += len(f["fb"][0])
             ends.append(at)
         conn.append({"sc": dict(fs[0]["sc"], frames=[f["sc"]["frames"][0] for f in fs]), "fb": [f["fb"][0] for f in fs], "ends": ends})
+    # the request size limit option: pipelines on a server whose limit is at, or one below, the payload length of one of the frames
+    serverlib.run_model(ctx, wd, 1 if ctx.quick else 2, "any", "limited", "lim")
+    limited = serverlib.emit_scenarios(ctx, wd, 2, "any", "limited", "lim2")
+    if ctx.machinery:
+        return
+    if ctx.quick:
+        limited = rng.sample(limited, 200)
     jobs = []
     for s in conn[::5]:                 # the session ends inside a frame: truncated schedules
         L = s["ends"][-1]
         jobs.append((s, [L - rng.randint(1, 20)]))
-    for s in singles + pairs + longer + conn:
+    for s in singles + pairs + longer + conn + limited:
         L = s["ends"][-1]
         per = [s["ends"][0]] + [s["ends"][i] - s["ends"][i - 1] for i in range(1, len(s["ends"]))]
         scheds = [[L], per]
